@@ -99,7 +99,6 @@ func TestVerif_C15_DocExamples(t *testing.T) {
 		if r.AllowedDomains == nil {
 			r.AllowedDomains = []string{}
 		}
-		res.Eval(1)
 		res.Nontrivial(caseID)
 		v := refAdmit(r, e.name)
 		if v.OK != e.permit {
